@@ -10,6 +10,7 @@ def run(rep: Report, repo: Repo, tier: str) -> None:
                "pathspec decides matches consistently for the same path string")
     fsrules.rule_same_source(rep, repo, "C14-R1")
     fsrules.rule_predicates_agree(rep, repo, "C14-R1p")
+    fsrules.rule_stem_agreement(rep, repo, "C14-R1s")
     fsrules.rule_prechecks_filtered(rep, repo, "C14-R2")
     fsrules.rule_no_mutation_while_iterating(rep, repo, "C14-R2m")
     fsrules.rule_topdir_test(rep, repo, "C14-R3")
